@@ -4,7 +4,7 @@ usage: baseline.py [repo-dir]   exit 0 iff every stable_pass test still passes."
 import json, os, subprocess, sys, tempfile, xml.etree.ElementTree as ET
 repo = sys.argv[1] if len(sys.argv) > 1 else "/repo"
 base = json.load(open("/root/.vp/BASELINE.json"))
-env = dict(os.environ); env.pop("NUNAVUT_VERIF", None); env["PYTHONDONTWRITEBYTECODE"] = "1"
+env = dict(os.environ); env.pop("NUNAVUT_VERIF", None); env["PYTHONDONTWRITEBYTECODE"] = "1"; env["PYTHONPATH"] = os.path.join(os.path.abspath(repo), "src")
 with tempfile.TemporaryDirectory() as d:
     x = os.path.join(d, "j.xml")
     subprocess.run(["/venv/bin/python", "-m", "pytest", "-ra", "-q", "-p", "no:cacheprovider", "--timeout=900",
